@@ -311,6 +311,32 @@ Proof.
     intros i Hi. apply hget_put_other. exact Hi.
 Qed.
 
+(** ** who is credited: the hook built by the token contracts names the cw20 caller
+    (for SendFrom: the spender, not the owner whose tokens move) and the amount moved *)
+Lemma bsei_hook_names_caller w t sender m t' out c u a hk :
+  bsei_execute w t sender m = Some (t', out) ->
+  In (MWasm c (WHub (HReceive u a hk)) []) out ->
+  u = sender /\ (m = CSend c a hk \/ exists o, m = CSendFrom o c a hk).
+Proof.
+  intros H Hin. unfold bsei_execute in H.
+  destruct m; cbv beta iota zeta in H; inv_all H; cbn [In] in Hin;
+    unfold m_dec, m_inc, m_receive, m_check_slashing in Hin;
+    repeat (destruct Hin as [Hin|Hin]; [try discriminate Hin|]); try contradiction;
+    inversion Hin; subst; split; eauto.
+Qed.
+
+Lemma stsei_hook_names_caller w t sender m t' out c u a hk :
+  stsei_execute w t sender m = Some (t', out) ->
+  In (MWasm c (WHub (HReceive u a hk)) []) out ->
+  u = sender /\ (m = CSend c a hk \/ exists o, m = CSendFrom o c a hk).
+Proof.
+  intros H Hin. unfold stsei_execute in H.
+  destruct m; cbv beta iota zeta in H; inv_all H; cbn [In] in Hin;
+    unfold m_dec, m_inc, m_receive, m_check_slashing in Hin;
+    repeat (destruct Hin as [Hin|Hin]; [try discriminate Hin|]); try contradiction;
+    inversion Hin; subst; split; eauto.
+Qed.
+
 (** ** how wait entries can change *)
 Lemma get_fold_del (u : addr) : forall bs (m : fmap (addr * N) (N * N)) k,
   NoDup (keys m) ->
